@@ -1050,7 +1050,7 @@ func runHistory(r *vrt.Run, idx int, conc bool) {
 
 func run(r *vrt.Run) {
 	r.Rule("a case is one operation of a random history (200-2000 operations) on a real Table with its own loop, simulated clock and simulated ping/ENR transport: found/inbound adds of node records (ids concentrated at log distances 256-254, spread over 253-240, below the bucket floor, and the local id; addresses from 6 public /24s plus unique public, loopback, RFC1918, link-local, public/ULA/link-local IPv6, v4-mapped, unspecified, none), record updates with endpoint moves, deletes, findnode success/failure bookkeeping with found lists, liveness changes, clock advances driving revalidation, closest-node queries and Nodes(); signature = (operation, where the node was before->after, result, bucket-full/replacement/LAN flags or query shape)")
-	n := r.N(200, 15000)
+	n := r.N(200, 5000)
 	if r.Race() {
 		n = n / 4
 	}
